@@ -19,6 +19,21 @@ def escaper_table(f, dkey=None, signed=True):
                 dkey = p[0]
                 break
     if dkey is None:
+        # the per-character decision was extracted: the loop hands each byte (`*cursor`, `s[i]`) to one same-unit helper that
+        # has a `char` parameter - the table is that helper's
+        helpers = []
+        for c in f.calls():
+            h = f.unit.funcs.get(c.get("callee") or "")
+            if h is None or h is f:
+                continue
+            for i, p in enumerate(h.params):
+                if p[1].replace("const ", "").strip() == "char" and i + 1 < len(c["c"]):
+                    a = strip(c["c"][1 + i])
+                    if a is not None and (a["k"] == "ArraySubscriptExpr" or (a["k"] == "UnaryOperator" and a["op"] == "*")) \
+                            and any(x["k"] in ("WhileStmt", "ForStmt", "DoStmt") for x in f.ancestors(c)) and h not in helpers:
+                        helpers.append(h)
+        if len(helpers) == 1:
+            return escaper_table(helpers[0], signed=signed)
         raise AnalysisBroken("%s: no switch on a character and no char parameter" % f.name)
     # start at the switch so that the loop / function prologue does not blur the table
     for b in f.cfg.blocks.values():
